@@ -168,7 +168,11 @@ func cacheCore(w *World, r *Report, la *LockAn, full bool) {
 				if i == nil {
 					continue
 				}
-				if rel, ok := NormCond(Cond{V: i.Cond, Pol: true}); ok && isSum(rel.L) && isMaxS(rel.R) && rel.Op == ">" {
+				rel, ok := NormCond(Cond{V: i.Cond, Pol: true})
+				if ok {
+					rel, ok = rel.Facing(isSum)
+				}
+				if ok && isSum(rel.L) && isMaxS(rel.R) && rel.Op == ">" {
 					if _, h := la.HeldAt(i)["param:cache.mutex"]; h && b.Succs[1].Dominates(mu.Block()) || b.Succs[1] == mu.Block() {
 						if _, h2 := la.HeldAt(i)["param:cache.mutex"]; h2 && !unlockOnPath(i, mu) {
 							lockedCheck = true
